@@ -99,6 +99,7 @@ func (ld *Loaded) verifyFunc(fn *ssa.Function) (res *FuncResult) {
 	ex.entry = st.clone()
 	entryEnv := ex.envAt(fr, st, nil)
 	entryEnv.old = ex.entry
+	entryEnv.paramsEntry = true
 	res.entryEnv = entryEnv
 	for _, r := range fc.Requires {
 		ex.assume(st, ex.evalBool(entryEnv, r.E))
